@@ -19,10 +19,12 @@ Fn(f) == [x \in DOMAIN f |-> f[x]]
 Upd(f, k, v)  == [x \in (DOMAIN f) \cup {k} |-> IF x = k THEN v ELSE f[x]]
 Without(f, D) == [x \in (DOMAIN f) \ D |-> f[x]]
 P0 == [labels |-> "", caps |-> "", ud |-> ""]
+\* user data is compared by VALUE: "U1s" is the value U1 given as JSON text in another layout (compact, keys reordered)
+UVal(t) == IF t = "U1s" THEN "U1" ELSE t
 
 Flags(a, b) == {f \in {"LABELS", "CAPACITIES", "USER_DATA"} :
                   \/ (f = "LABELS" /\ a.labels # b.labels) \/ (f = "CAPACITIES" /\ a.caps # b.caps)
-                  \/ (f = "USER_DATA" /\ a.ud # b.ud)}
+                  \/ (f = "USER_DATA" /\ UVal(a.ud) # UVal(b.ud))}
 Added(a, b)   == (DOMAIN b) \ (DOMAIN a)
 Removed(a, b) == (DOMAIN a) \ (DOMAIN b)
 Common(a, b)  == (DOMAIN a) \cap (DOMAIN b)
@@ -89,10 +91,17 @@ Edit(S, o) ==
 Apply(S, o) == Edit(S, o)
 
 \* ---------------------------------------------------------------- laws
+\* slivers up to the layout of their user data
+NormP(p) == [p EXCEPT !.ud = UVal(@)]
+NormNode(n) == [p |-> NormP(n.p),
+                comps |-> [c \in DOMAIN n.comps |-> [p |-> NormP(n.comps[c].p), smart |-> n.comps[c].smart,
+                              ifs |-> [i \in DOMAIN n.comps[c].ifs |-> [p |-> NormP(n.comps[c].ifs[i].p),
+                                         subs |-> [x \in DOMAIN n.comps[c].ifs[i].subs |-> [p |-> NormP(n.comps[c].ifs[i].subs[x].p)]]]]]],
+                svcs |-> [x \in DOMAIN n.svcs |-> [p |-> NormP(n.svcs[x].p)]]]
 Laws(S) ==
     /\ NodeDiffEmpty(NodeDiff(S.old, S.old))
     /\ NodeDiff(S.old, S.new).comps_added = NodeDiff(S.new, S.old).comps_removed
     /\ NodeDiff(S.old, S.new).svcs_added = NodeDiff(S.new, S.old).svcs_removed
     /\ DOMAIN NodeDiff(S.old, S.new).comps_modified = DOMAIN NodeDiff(S.new, S.old).comps_modified
-    /\ (S.old = S.new <=> NodeDiffEmpty(NodeDiff(S.old, S.new)))
+    /\ (NormNode(S.old) = NormNode(S.new) <=> NodeDiffEmpty(NodeDiff(S.old, S.new)))
 =============================================================================
